@@ -1,7 +1,8 @@
 #!/usr/bin/env python3
 """Verify a sub-agent's seeded defect in a fresh scratch worktree of /repo HEAD and file it under /verif/seeded/.
 
-usage: seed_intake.py <Cxx> <N>      (reads /tmp/wt/<Cxx>/out/{patchN.diff,demoN.py,metaN.json})
+usage: seed_intake.py <Cxx> <N> [<base dir, default /tmp/wt> [<number to file it under, default N>]]
+       (reads <base>/<Cxx>/out/{patchN.diff,demoN.py,metaN.json})
 Confirms: patch applies, test suite result unchanged (356 passed, the 5 known failures), demo exits 1 with the
 patch and 0 without.  Nothing is applied to /repo itself here.
 """
@@ -16,21 +17,24 @@ def sh(cmd, cwd=None, env=None, timeout=1200):
 
 def main():
     pid, n = sys.argv[1], sys.argv[2]
-    src = f"/tmp/wt/{pid}/out"
+    base = sys.argv[3] if len(sys.argv) > 3 else "/tmp/wt"
+    as_n = sys.argv[4] if len(sys.argv) > 4 else n
+    src = f"{base}/{pid}/out"
     patch, demo, meta = f"{src}/patch{n}.diff", f"{src}/demo{n}.py", f"{src}/meta{n}.json"
     for f in (patch, demo, meta):
         if not os.path.exists(f):
             print("missing", f); return 2
-    wt = tempfile.mkdtemp(prefix="seedwt_", dir="/tmp")
+    os.makedirs("/var/tmp/pv", exist_ok=True)
+    wt = tempfile.mkdtemp(prefix="seedwt_", dir="/var/tmp/pv")
     os.rmdir(wt)
-    r = sh(f"git -C /repo worktree add -q {wt} HEAD")
+    r = sh(f"git -C /repo worktree add -q --detach {wt} HEAD")
     assert r.returncode == 0, r.stderr
     out = {"ok": False}
     try:
         env = dict(os.environ, PYTHONPATH=f"{wt}/src", PYTHONDONTWRITEBYTECODE="1")
         os.makedirs(f"{wt}/out", exist_ok=True)
         shutil.copy(demo, f"{wt}/out/demo.py")
-        text = open(f"{wt}/out/demo.py").read().replace(f"/tmp/wt/{pid}", wt)
+        text = open(f"{wt}/out/demo.py").read().replace(f"{base}/{pid}", wt)
         open(f"{wt}/out/demo.py", "w").write(text)
         clean = sh("/venv/bin/python out/demo.py", cwd=wt, env=env)
         out["demo_clean_exit"] = clean.returncode
@@ -51,10 +55,10 @@ def main():
         sh(f"git -C /repo worktree remove --force {wt}")
         shutil.rmtree(wt, ignore_errors=True)
     if out["ok"]:
-        dst = f"/verif/seeded/{pid}-{n}"
+        dst = f"/verif/seeded/{pid}-{as_n}"
         os.makedirs(dst, exist_ok=True)
         shutil.copy(patch, f"{dst}/patch.diff")
-        text = open(demo).read().replace(f"/tmp/wt/{pid}", "/repo")
+        text = open(demo).read().replace(f"{base}/{pid}", "/repo")
         open(f"{dst}/demo.py", "w").write(text)
         m = json.load(open(meta))
         head = sh("git -C /repo log -1 --format=%h").stdout.strip()
